@@ -20,8 +20,9 @@ func vhRich(variant int, optMask cfgFlag) (Stack, *nodeConfig) {
 	pre := vhArbitraryStack(4, 1, false, optMask, capMode, 1)
 	cfg := pre.cfg
 	inner := And().Push("i1", nil, "i2", float32(2.5))
-	cexp := Or().Push("c1", 0.125, true)
-	c := Cond("kw", Ge, cexp)
+	// both the nested Condition and the Stack it holds quote their values
+	cexp := Or().Push("c1", 0.125, true).SetEncap("'")
+	c := Cond("kw", Ge, cexp).SetEncap([]string{"[", "]"})
 	st := *pre.s.stack
 	st[1] = vhWrapStack(inner, nondetChoice(2))
 	st[2] = c
@@ -73,7 +74,7 @@ func vhRichCond(variant int, optMask cfgFlag) Condition {
 		c = Cond("kw", Lt, "text")
 	} else {
 		// the Stack expression is native, an alias or a pointer to an alias
-		c = Cond("kw", Lt, vhWrapStack(Or().Push("x1", "x2"), []int{0, 1, 3}[nondetChoice(3)]))
+		c = Cond("kw", Lt, vhWrapStack(Or().Push("x1", "x2").SetEncap("'"), []int{0, 1, 3}[nondetChoice(3)]))
 	}
 	cfg := c.condition.cfg
 	cfg.opt = cfgFlag(nondetUint16()) & optMask
